@@ -304,13 +304,13 @@ def run(ctx):
                        "`self.keys() & other.keys()` in merge is an input of the model (recorded from the run; the theorems hold "
                        "for every order); TensorNetwork.merge's data-dictionary union is not modelled (datarefs are codes); "
                        "'never modifies the second operand' is checked on the implementation by deep snapshots")
-    ctx.assumes.append("model = /repo with the proposed repair proposed_fixes/C08-merge-dedupe-del-axes.diff; joins are dimension-"
+    ctx.assumes.append("model = /repo with the proposed repairs proposed_fixes/C08-merge-dedupe-del-axes.diff, C08-transpose-default-axes.diff and C07-is-consistent-leg-count.diff; joins are dimension-"
                        "compatible and the transposition is a permutation (the code validates neither); the virtual tensor -1 is not renamed")
     ctx.rules.append("random consistent networks (0-6 tensors, degree<=4, bond dims 1-3, hyper-bonds, multi-edges, self-traces, shared "
                      "open bonds, identity wires, negative/colliding ids) x random operation sequences (length<=12; rename_tensor, "
                      "rename_bond, transpose incl. refused ones, merge with colliding ids / shared datarefs equal+unequal / joins "
                      "reusing axes / out-of-range joins). non-trivial = sequence with >=1 accepted operation on a network with >=1 bond")
-    ctx.lib(["TN/TNCheck", "TN/TNCounts"])
+    ctx.lib(["TN/TNCheck", "TN/TNSem"])
     ctx.props()
     rng = ctx.rng
     cases = []
